@@ -331,6 +331,7 @@ class ComponentLevel2( ComponentLevel1 ):
 
       for blk, calls in m._dsl.upblk_calls.items():
         s._dsl.all_upblk_calls[ blk ] = calls
+        nested_calls = set()
 
         for call in calls:
 
@@ -341,6 +342,10 @@ class ComponentLevel2( ComponentLevel1 ):
 
           def dfs( u, stk ):
             if u not in m._dsl.func_reads:
+              # Not a function: a method (port) called inside a function is
+              # called by the outermost upblk as well
+              if u is not call:
+                nested_calls.add( u )
               return
 
             # Add all read/write of funcs to the outermost upblk
@@ -375,6 +380,9 @@ class ComponentLevel2( ComponentLevel1 ):
           caller = { call: ( blk, 0 ) }
           stk    = [ call ] # for error message
           dfs( call, stk )
+
+        if nested_calls:
+          s._dsl.all_upblk_calls[ blk ] = calls | nested_calls
 
   def _uncollect_vars( s, m ):
     super()._uncollect_vars( m )
